@@ -19,6 +19,9 @@ def scenarios(tier, rng):
         dict(name="raw", pkg="two", comp="none", threads=8, reads=40, perturb=1, contents=mixed(20, 700)),
         dict(name="failing", pkg="two", comp="lz4", threads=10, reads=20, perturb=2, contents=big(2, 800) + mixed(4, 900),
              damage="2000:ff,2001:ff,2002:ff,2003:ff,90000:ff,90001:ff,400000:55"),
+        # the readers are the workers of rayon's global pool: all of them wait on compressed clusters at the same moment
+        dict(name="rayon", pkg="two", comp="zstd", threads=16, reads=3, perturb=0, pool="rayon",
+             contents=["content y g:%d:%d:t" % (300000 + 1000 * i, 1200 + i) for i in range(20)]),
         dict(name="failzstd", pkg="two", comp="zstd", threads=10, reads=20, perturb=1, contents=big(2, 810) + mixed(4, 910),
              damage="300:ff,301:ff,340:ff"),
     ]
@@ -34,7 +37,7 @@ def scenarios(tier, rng):
 def case_text(c):
     s = "case %s conc pkg=%s comp=%s threads=%d reads=%d seed=%d perturb=%d%s\n" % (
         c["id"], c["pkg"], c["comp"], c["threads"], c["reads"], c["seed"], c["perturb"],
-        (" damage=" + c["damage"]) if c.get("damage") else "")
+((" damage=" + c["damage"]) if c.get("damage") else "") + ((" pool=" + c["pool"]) if c.get("pool") else ""))
     return s + "\n".join(c["contents"]) + "\nend\n"
 
 
@@ -49,6 +52,8 @@ def parse_replay(path):
                        perturb=int(kv["perturb"]), contents=[], name=t[1])
             if "damage" in kv:
                 cur["damage"] = kv["damage"]
+            if "pool" in kv:
+                cur["pool"] = kv["pool"]
         elif l == "end" and cur:
             cases.append(cur); cur = None
         elif cur is not None and l.startswith("content "):
